@@ -1,4 +1,336 @@
-//! ephemeralclock: not built yet.
-pub fn run(args: &vh_common::Args) {
-    vh_common::unknown(args)
+//! Ephemeral, publisher half of C16: the real `EphemeralStreamPublisher` under mock_instant's
+//! thread-local wall clock (this package is built with `p2panda-core/test_utils`), against the
+//! publisher machine of spec/Ephemeral.
+//!
+//! The publisher is built by `p2panda::verif_api::verif_ephemeral_stream` over a real
+//! `GossipHandle` whose channels belong to the harness (probe actor answering
+//! `ToGossipManager::Subscribe`, hook `Gossip::verif_new`); the bytes it hands to gossip are taken
+//! from the mpsc channel, decoded as CBOR and their (timestamp, logical) pair, pairwise
+//! distinctness and order are compared with the specification. Every captured message is also
+//! delivered to the real subscription of the same stream, which must yield it.
+//! Everything runs on one thread (current-thread runtime + `block_on`), the thread whose mock
+//! clock the harness sets before each call that reads it.
+use std::pin::Pin;
+use std::sync::Arc;
+use std::sync::atomic::{AtomicU64, Ordering};
+use std::task::{Context, Poll, Wake, Waker};
+use std::time::Duration;
+
+use ciborium::Value as Cbor;
+use futures_util::Stream;
+use mock_instant::thread_local::MockClock;
+use p2panda::streams::{EphemeralStreamPublisher, EphemeralStreamSubscription};
+use p2panda::verif_api::{OperationForge, verif_ephemeral_stream};
+use p2panda_core::{SigningKey, Topic};
+use p2panda_net::AddressBook;
+use p2panda_net::gossip::{Gossip, GossipConfig, ToGossipManager};
+use p2panda_store::SqliteStore;
+use ractor::{Actor, ActorProcessingErr, ActorRef};
+use tokio::runtime::Runtime;
+use tokio::sync::{broadcast, mpsc};
+use vh_common::{Args, Outcome, Rng, TraceWriter, Value, catch, json, read_ndjson, unknown};
+
+pub fn run(args: &Args) {
+    match args.mode.as_str() {
+        "replay" => replay(args),
+        "record" => record(args),
+        _ => unknown(args),
+    }
+}
+
+fn set_wall(micros: u64) {
+    MockClock::set_system_time(Duration::from_micros(micros));
+}
+
+type Channels = (mpsc::Sender<Vec<u8>>, broadcast::Sender<Vec<u8>>);
+
+/// Stand-in for the gossip manager actor: answers the (one) `Subscribe` with the prepared channels.
+struct Probe;
+
+impl Actor for Probe {
+    type Msg = ToGossipManager;
+    type State = Option<Channels>;
+    type Arguments = Channels;
+
+    async fn pre_start(&self, _me: ActorRef<Self::Msg>, args: Channels) -> Result<Self::State, ActorProcessingErr> {
+        Ok(Some(args))
+    }
+
+    async fn handle(&self, _me: ActorRef<Self::Msg>, message: Self::Msg, state: &mut Self::State) -> Result<(), ActorProcessingErr> {
+        if let ToGossipManager::Subscribe(_topic, _nodes, reply) = message
+            && let Some(channels) = state.take()
+        {
+            let _ = reply.send(channels);
+        }
+        Ok(())
+    }
+}
+
+struct Env {
+    rt: Runtime,
+    address_book: AddressBook,
+    store: SqliteStore,
+    key: SigningKey,
+    topics: AtomicU64,
+}
+
+struct Noop;
+impl Wake for Noop {
+    fn wake(self: Arc<Self>) {}
+}
+
+struct Stream1 {
+    _gossip: Gossip,
+    publisher: EphemeralStreamPublisher<String>,
+    sub: Pin<Box<EphemeralStreamSubscription<String>>>,
+    from_tx: broadcast::Sender<Vec<u8>>,
+    to_rx: mpsc::Receiver<Vec<u8>>,
+}
+
+impl Env {
+    fn new() -> Env {
+        set_wall(1_000_000);
+        let rt = tokio::runtime::Builder::new_current_thread().enable_all().build().expect("runtime");
+        let (address_book, store) =
+            rt.block_on(async { (AddressBook::builder().spawn().await.expect("address book"), SqliteStore::temporary().await) });
+        Env { rt, address_book, store, key: SigningKey::from_bytes(&[0xA1; 32]), topics: AtomicU64::new(1) }
+    }
+
+    /// `ephemeral_stream` while the wall clock reads `w0`.
+    fn create_stream(&self, w0: u64) -> Stream1 {
+        let n = self.topics.fetch_add(1, Ordering::SeqCst);
+        let mut t = [0u8; 32];
+        t[..8].copy_from_slice(&n.to_be_bytes());
+        let topic = Topic::from(t);
+        let (to_tx, to_rx) = mpsc::channel::<Vec<u8>>(1024);
+        let (from_tx, rx0) = broadcast::channel::<Vec<u8>>(1024);
+        drop(rx0);
+        let forge = OperationForge::from_signing_key(self.key.clone(), self.store.clone());
+        let (gossip, publisher, sub) = self.rt.block_on(async {
+            let (actor, _join) = Actor::spawn(None, Probe, (to_tx, from_tx.clone())).await.expect("spawn probe");
+            let gossip = Gossip::verif_new(actor, self.key.verifying_key(), self.address_book.clone(), GossipConfig::default());
+            let handle = gossip.stream(topic).await.expect("gossip stream");
+            set_wall(w0);
+            let (publisher, sub) = verif_ephemeral_stream::<String>(topic, forge, handle);
+            (gossip, publisher, sub)
+        });
+        Stream1 { _gossip: gossip, publisher, sub: Box::pin(sub), from_tx, to_rx }
+    }
+}
+
+/// The fields of a published message the property talks about.
+#[derive(Debug, Clone, PartialEq)]
+struct Published {
+    bytes: Vec<u8>,
+    ts: (u64, u64),
+}
+
+impl Stream1 {
+    /// `publish(body)` while the wall clock reads `w`; returns the bytes handed to gossip.
+    fn publish(&mut self, env: &Env, w: u64, body: &str) -> Result<Published, String> {
+        set_wall(w);
+        catch(|| env.rt.block_on(self.publisher.publish(body.to_string())))?.map_err(|e| format!("publish failed: {e}"))?;
+        let bytes = self.to_rx.try_recv().map_err(|e| format!("nothing handed to gossip: {e}"))?;
+        let fields = match ciborium::from_reader::<Cbor, _>(&bytes[..]) {
+            Ok(Cbor::Array(f)) if f.len() == 6 => f,
+            other => return Err(format!("published bytes are not the 6-tuple: {other:?}")),
+        };
+        let int = |v: &Cbor| match v {
+            Cbor::Integer(i) => u64::try_from(*i).map_err(|e| e.to_string()),
+            other => Err(format!("not an integer: {other:?}")),
+        };
+        Ok(Published { ts: (int(&fields[3])?, int(&fields[4])?), bytes })
+    }
+
+    /// Delivers the bytes to the stream's own subscription; returns (author ok, timestamp, body) if yielded.
+    fn roundtrip(&mut self, env: &Env, bytes: &[u8]) -> Option<(bool, u64, String)> {
+        let _ = self.from_tx.send(bytes.to_vec());
+        let waker = Waker::from(Arc::new(Noop));
+        let mut cx = Context::from_waker(&waker);
+        match self.sub.as_mut().poll_next(&mut cx) {
+            Poll::Ready(Some(m)) => Some((m.author() == env.key.verifying_key(), m.timestamp(), m.body().clone())),
+            _ => None,
+        }
+    }
+}
+
+/// Order-preserving embeddings of the model's small naturals into microsecond magnitudes.
+const EMBEDDINGS: &[(u64, u64)] = &[(0, 1), (1_700_000_000_000_000, 1), (1_700_000_000_000_000, 60_000_000)];
+
+fn lex_less(a: (u64, u64), b: (u64, u64)) -> bool {
+    a.0 < b.0 || (a.0 == b.0 && a.1 < b.1)
+}
+
+/// Property-level judgement of a publish sequence (C16, second sentence).
+fn judge_sequence(out: &mut Outcome, seq: &[Published], case: &Value) -> bool {
+    for j in 0..seq.len() {
+        for k in (j + 1)..seq.len() {
+            if seq[j].bytes == seq[k].bytes {
+                out.violation(
+                    "C16",
+                    "byte-identical-messages",
+                    format!("publishes {j} and {k} of one publisher are byte-identical (timestamp {:?})", seq[j].ts),
+                    case.clone(),
+                );
+                return false;
+            }
+        }
+        if j + 1 < seq.len() && !lex_less(seq[j].ts, seq[j + 1].ts) {
+            out.violation(
+                "C16",
+                "timestamp-not-increasing",
+                format!("publish {} carries timestamp {:?}, the previous one {:?}", j + 1, seq[j + 1].ts, seq[j].ts),
+                case.clone(),
+            );
+            return false;
+        }
+    }
+    true
+}
+
+fn replay(args: &Args) {
+    let behaviours = read_ndjson(args.input.as_ref().expect("--in"));
+    let mut out = Outcome::new(
+        args,
+        "every TLC-enumerated sequence of wall-clock readings (stream creation + publishes of the SAME body) executed on the real \
+         EphemeralStreamPublisher under the mock clock in 3 magnitudes; non-trivial = some reading not ahead of the previous timestamp; \
+         distinct by sequence x magnitude",
+    );
+    let env = Env::new();
+    for b in &behaviours {
+        if b["kind"] != "pub" {
+            eprintln!("unknown behaviour kind: {b}");
+            std::process::exit(2);
+        }
+        for &e in EMBEDDINGS {
+            out.eval();
+            let emb = |x: u64| e.0 + x * e.1;
+            let mut stream: Option<Stream1> = None;
+            let mut seq: Vec<Published> = Vec::new();
+            let mut nontrivial = false;
+            let mut prev_t: Option<u64> = None;
+            let mut ok = true;
+            for (idx, step) in b["steps"].as_array().expect("steps").iter().enumerate() {
+                let w = step["w"].as_u64().unwrap();
+                let exp = (emb(step["ts"][0].as_u64().unwrap()), step["ts"][1].as_u64().unwrap());
+                match step["ev"].as_str().unwrap() {
+                    "CreateStream" => {
+                        stream = Some(env.create_stream(emb(w)));
+                        prev_t = Some(w);
+                    }
+                    "Publish" => {
+                        if prev_t.is_some_and(|p| w <= p) {
+                            nontrivial = true;
+                            out.count(if prev_t == Some(w) { "wall-equal" } else { "wall-earlier" });
+                        } else {
+                            out.count("wall-later");
+                        }
+                        prev_t = Some(prev_t.unwrap_or(0).max(w));
+                        let s = stream.as_mut().expect("stream created first");
+                        match s.publish(&env, emb(w), "same body every time") {
+                            Ok(p) => {
+                                if p.ts != exp {
+                                    // conformance; whether the property itself is hurt is judged below on the whole sequence
+                                    seq.push(p.clone());
+                                    if judge_sequence(&mut out, &seq, b) {
+                                        out.violation(
+                                            "C16",
+                                            "publisher-differs-from-spec",
+                                            format!("step {idx}: published timestamp {:?}, specification says {exp:?}", p.ts),
+                                            b.clone(),
+                                        );
+                                    }
+                                    ok = false;
+                                    break;
+                                }
+                                match s.roundtrip(&env, &p.bytes) {
+                                    Some((true, t, body)) if t == p.ts.0 && body == "same body every time" => {}
+                                    other => {
+                                        out.violation(
+                                            "C16",
+                                            "published-message-not-yielded",
+                                            format!("step {idx}: own subscription did not yield the published message as signed: {other:?}"),
+                                            b.clone(),
+                                        );
+                                        ok = false;
+                                        break;
+                                    }
+                                }
+                                seq.push(p);
+                            }
+                            Err(err) => {
+                                out.violation("C16", "publish-panics-or-fails", err, b.clone());
+                                ok = false;
+                                break;
+                            }
+                        }
+                    }
+                    other => {
+                        eprintln!("unknown step {other}");
+                        std::process::exit(2);
+                    }
+                }
+            }
+            if ok && judge_sequence(&mut out, &seq, b) {
+                out.sample(b.clone());
+            }
+            if nontrivial {
+                out.mark_distinct(format!("{}|{e:?}", b["steps"]));
+            }
+        }
+    }
+    out.write(args);
+}
+
+const TLC_MAX: u64 = (i32::MAX - 2) as u64;
+
+fn record(args: &Args) {
+    let mut rng = Rng::new(args.seed);
+    let n = if args.n > 0 { args.n } else { 100 };
+    let mut trace = TraceWriter::create(args.out.as_ref().expect("--out"));
+    let mut out = Outcome::new(
+        args,
+        "seeded random publish sequences of one body under a wall clock that jumps backwards, stands still, creeps and jumps forward \
+         (values <= 2^31-3); one trace event per stream creation / publish with the timestamp pair found in the published bytes",
+    );
+    let env = Env::new();
+    for run in 0..n {
+        trace.event(json!({"ev": "Reset", "run": run, "cap": 1}));
+        trace.event(json!({"ev": "PubReset"}));
+        let base = rng.below(TLC_MAX - 200_000);
+        let mut wall = base + 100_000;
+        let mut s = env.create_stream(wall);
+        trace.event(json!({"ev": "CreateStream", "w": wall}));
+        let mut seq: Vec<Published> = Vec::new();
+        let publishes = rng.range(3, 12);
+        let case = json!({"run": run, "seed": args.seed});
+        for _ in 0..publishes {
+            let last_t = seq.last().map(|p| p.ts.0).unwrap_or(wall);
+            match rng.below(20) {
+                0..=3 => wall = wall.saturating_sub(rng.range(1, 50_000)).max(base),
+                4..=6 => {}
+                7..=9 => wall = last_t,
+                10..=12 => wall = (wall + 1).min(TLC_MAX),
+                13 => wall = *rng.pick(&[0, 1, TLC_MAX - 1, TLC_MAX]),
+                _ => wall = (wall + rng.range(1, 5_000)).min(TLC_MAX),
+            }
+            out.eval();
+            out.count(if wall < last_t { "wall-earlier" } else if wall == last_t { "wall-equal" } else { "wall-later" });
+            match s.publish(&env, wall, "same body every time") {
+                Ok(p) => {
+                    out.mark_distinct(format!("{run}:{}:{wall}", seq.len()));
+                    trace.event(json!({"ev": "Publish", "w": wall, "ts": [p.ts.0, p.ts.1]}));
+                    seq.push(p);
+                }
+                Err(e) => {
+                    out.violation("C16", "publish-panics-or-fails", e, case.clone());
+                    break;
+                }
+            }
+        }
+        judge_sequence(&mut out, &seq, &case);
+    }
+    let (events, runs) = trace.finish();
+    out.set_trace(events, runs);
+    out.write(args);
 }
